@@ -90,6 +90,9 @@ class Context:
     def axioms(self, light=False):
         if self._base is None:
             self._base = T.base_axioms() + stdlib_axioms()
+        if getattr(self, '_boxed', None) is None:
+            self._boxed = True
+            self._base = self._base + self.box_axioms()
         if light:
             return self._base + self.fact_axioms
         return self._base + self.fact_axioms + self.spec_axioms + self.lemma_axioms
@@ -435,6 +438,13 @@ class Context:
 
     def dict_has(self, I, d, key, node):
         c = I.cell(d)
+        if isinstance(key, VOpt) and not I.pure:
+            key = I.unwrap(key, node)
+        if isinstance(key, VOpt):
+            inner = self.dict_has(I, d, key.val, node)
+            return z3.And(z3.Not(key.is_none), inner)
+        if isinstance(key, VNone) and isinstance(c.content, VMap):
+            return z3.BoolVal(False)
         if isinstance(c.content, list):
             if not c.content:
                 return z3.BoolVal(False)
@@ -467,14 +477,59 @@ class Context:
             return v.t
         if m.vkind == 'int' and isinstance(v, VInt):
             return v.t
-        if m.vkind == 'obj' and isinstance(v, VOpaque):
-            return v.t
-        if m.vkind == 'obj' and isinstance(v, VNone):
-            return z3.Const('None.obj', T.Obj)
+        if m.vkind == 'obj':
+            return self.obj_term(I, v, node)
         unw = getattr(m, 'vunwrap', None)
         if unw:
             return unw(I, v)
         raise Unsupported('map value %r' % (v,), node)
+
+    # ---- boxing of arbitrary values into the sort Obj (dict values, tuples of callbacks, ...) --------------------
+    NONE_OBJ = z3.Const('None.obj', T.Obj)
+
+    def tup_fn(self, n):
+        return self.uf('tup%d' % n, *([T.Obj] * n + [T.Obj]))
+
+    def proj_fn(self, n, k):
+        return self.uf('tup%d.%d' % (n, k), T.Obj, T.Obj)
+
+    def box_axioms(self):
+        A = [z3.Not(self.obj_truthy(self.NONE_OBJ))]
+        for n in (2, 3):
+            xs = [z3.Const('bx%d' % i, T.Obj) for i in range(n)]
+            t = self.tup_fn(n)(*xs)
+            A.append(z3.ForAll(xs, z3.And(*[self.proj_fn(n, k)(t) == xs[k] for k in range(n)], t != self.NONE_OBJ, self.obj_truthy(t)),
+                               patterns=[t]))
+        return A
+
+    def obj_term(self, I, v, node=None):
+        if isinstance(v, VOpaque):
+            return v.t
+        if isinstance(v, VNone):
+            return self.NONE_OBJ
+        if isinstance(v, VOpt):
+            return z3.If(v.is_none, self.NONE_OBJ, self.obj_term(I, v.val, node))
+        if isinstance(v, VTuple) and len(v.items) in (2, 3):
+            return self.tup_fn(len(v.items))(*[self.obj_term(I, x, node) for x in v.items])
+        if isinstance(v, VRef):
+            t = z3.Const('ref!%d' % v.loc, T.Obj)
+            I.assume(z3.And(t != self.NONE_OBJ, self.obj_truthy(t)))
+            return t
+        if isinstance(v, VFunc):
+            sv = v.self_val.loc if isinstance(v.self_val, VRef) else ''
+            t = z3.Const('fn!%s@%s' % (v.finfo.qualname, sv), T.Obj)
+            I.assume(z3.And(t != self.NONE_OBJ, self.obj_truthy(t)))
+            return t
+        if isinstance(v, VClosure):
+            t = z3.Const('closure!%d@L%s' % (id(v.node) % 100000, getattr(v.node, 'lineno', 0)), T.Obj)
+            I.assume(z3.And(t != self.NONE_OBJ, self.obj_truthy(t)))
+            return t
+        if isinstance(v, VSeq) and v.th is S:
+            return self.uf('box_str', S.sort, T.Obj)(v.t)
+        raise Unsupported('cannot box %r into Obj' % (v,), node)
+
+    def unbox(self, I, v, n):
+        return [VOpaque(self.proj_fn(n, k)(v.t), v.label) for k in range(n)]
 
     def dict_get(self, I, d, key, node):
         c = I.cell(d)
@@ -617,7 +672,9 @@ class Context:
             return I.alloc(HList(VSeq(t, KIND_OF[n], th, ekind='bytes' if n == 'ListBytes' else None), KIND_OF[n]))
         if n == 'Opaque':
             label = ty.args[0] if ty.args else ''
-            return VOpaque(I.fresh(name, T.Obj), label)
+            t = I.fresh(name, T.Obj)
+            I.assume(t != self.NONE_OBJ)
+            return VOpaque(t, label)
         if n == 'Opt':
             inner = self.make_symbolic(I, ty.args[0], name)
             return VOpt(I.fresh(name + '_none', T.B), inner)
@@ -625,6 +682,13 @@ class Context:
             return VTuple([self.make_symbolic(I, a, '%s_%d' % (name, k)) for k, a in enumerate(ty.args)])
         if n == 'Obj':
             return self.make_object(I, ty.args[0], name)
+        if n == 'Callback':
+            t = I.fresh(name, T.Obj)
+            I.assume(z3.And(self.obj_truthy(t), t != self.NONE_OBJ))
+            return VOpaque(t, 'callback')
+        if n == 'DictStrStr':
+            th = T.MapSS
+            return I.alloc(HDict(VMap(I.fresh(name, th.sort), th, 'str', 'str')))
         if n == 'DictStrObj':
             th = T.MapSO
             return I.alloc(HDict(VMap(I.fresh(name, th.sort), th, 'str', 'obj')))
@@ -898,6 +962,42 @@ class Context:
             if k >= len(evs):
                 raise Unsupported('event_arg: fewer than %d events %s on this path' % (k + 1, name), node)
             return evs[k].args[j]
+        if fn == 'attr':
+            node_v = I.unwrap(I.ev(node.args[0], frame))
+            attrs = I.unwrap(I.getattr(node_v, 'attributes', node))
+            m = I.cell(attrs).content if I.is_dict(attrs) else attrs
+            if not isinstance(m, VMap):
+                raise Unsupported('attr() needs a node with a symbolic attribute map', node)
+            kt = self.map_key_term(I, m, I.ev(node.args[1], frame), node)
+            return VOpt(z3.Not(m.th.Has(m.t, kt)), self.map_val_wrap(I, m, m.th.Get(m.t, kt)))
+        if fn in ('map_del', 'map_put'):
+            a0 = I.unwrap(I.ev(node.args[0], frame))
+            m = a0 if isinstance(a0, VMap) else I.cell(a0).content
+            kt = self.map_key_term(I, m, I.ev(node.args[1], frame), node)
+            if fn == 'map_del':
+                return VMap(m.th.Del(m.t, kt), m.th, m.kkind, m.vkind)
+            return VMap(m.th.Put(m.t, kt, self.map_val_term(I, m, I.ev(node.args[2], frame), node)), m.th, m.kkind, m.vkind)
+        if fn == 'proj':
+            v = I.ev(node.args[0], frame)
+            n_ = VInt(I.as_int(I.ev(node.args[1], frame))).const()
+            k_ = VInt(I.as_int(I.ev(node.args[2], frame))).const()
+            return VOpaque(self.proj_fn(n_, k_)(self.obj_term(I, v, node)))
+        if fn == 'same_obj':
+            a = self.obj_term(I, I.ev(node.args[0], frame), node)
+            b = self.obj_term(I, I.ev(node.args[1], frame), node)
+            return VBool(a == b)
+        if fn == 'at_event':
+            name = self.const_str(I, I.ev(node.args[0], frame))
+            k = VInt(I.as_int(I.ev(node.args[1], frame))).const()
+            evs = [e for e in I.st.trace if isinstance(e, Event) and e.name == name]
+            if k >= len(evs):
+                raise Unsupported('at_event: fewer than %d events %s on this path' % (k + 1, name), node)
+            saved = I.st.heap
+            I.st.heap = dict(evs[k].heap)
+            try:
+                return I.ev(node.args[2], frame)
+            finally:
+                I.st.heap = saved
         if fn == 'rep':
             e = I.as_int(I.ev(node.args[0], frame))
             n = I.as_int(I.ev(node.args[1], frame))
